@@ -21,7 +21,8 @@ try:
                     "--exclude", "evidence", "--exclude", "seeded", "/verif/", root + "/verif/"], check=True)
     # the harness depends on /repo by absolute path; point the scratch copy at the mutated tree instead
     ct = root + "/verif/harness/Cargo.toml"
-    open(ct, "w").write(open(ct).read().replace('path = "/repo"', 'path = "%s/repo"' % root))
+    txt = open(ct).read().replace('path = "/repo"', 'path = "%s/repo"' % root)
+    open(ct, "w").write(txt)
     man = json.load(open("/verif/MANIFEST.json"))
     ids = [c["property_id"] for c in man["checks"]]
     if want:
